@@ -328,9 +328,9 @@ func (x *c1runner) confirm(p c1prog, cls string, pref c1arr) (ok bool, why strin
 		return v.ok, v.why, v.min, v.f
 	}
 	x.mu.Unlock()
-	budget := 6 * time.Second
+	budget := 6000 // evaluations
 	if p.stream == "corpus" {
-		budget = 15 * time.Second
+		budget = 9000
 	}
 	// the minimiser evaluates programs of its own making: name them for the crash record
 	x.mark(p, []string{"// while minimising\n" + p.src})
